@@ -408,6 +408,15 @@ func (el *eventloop) close(c *conn, err error) error {
 	return el.handleAction(c, action)
 }
 
+// closeOnWriteError closes a connection whose Write/Writev failed inside a callback.
+// The caller cannot hand the result to the poller, so a Shutdown action returned by
+// OnClose is carried out here instead of getting lost.
+func (el *eventloop) closeOnWriteError(c *conn, err error) {
+	if e := el.close(c, err); errors.Is(e, errorx.ErrEngineShutdown) {
+		el.engine.shutdown(e)
+	}
+}
+
 func (el *eventloop) wake(c *conn) error {
 	if !c.opened || el.connections.getConn(c.fd) == nil {
 		return nil // ignore stale connections
